@@ -122,6 +122,64 @@ fn boundary_source(rng: &mut Rng) -> (Format, truth::Game, String) {
     }
 }
 
+// ---------------------------------------------------------------------------------------------
+// source-level oracle: the argument values a source asks for must be the values a reader sees
+
+/// splits `a, "b,c", 3` at top-level commas
+fn split_args(s: &str) -> Vec<String> {
+    let (mut out, mut cur, mut depth, mut in_str, mut esc) = (vec![], String::new(), 0i32, false, false);
+    for c in s.chars() {
+        if in_str { cur.push(c); if esc { esc = false; } else if c == '\\' { esc = true; } else if c == '"' { in_str = false; } continue; }
+        match c {
+            '"' => { in_str = true; cur.push(c); },
+            '(' | '[' | '{' => { depth += 1; cur.push(c); },
+            ')' | ']' | '}' => { depth -= 1; cur.push(c); },
+            ',' if depth == 0 => { out.push(cur.trim().to_string()); cur.clear(); },
+            _ => cur.push(c),
+        }
+    }
+    if !cur.trim().is_empty() { out.push(cur.trim().to_string()); }
+    out
+}
+
+/// numeric value of a literal as printed by the source generator or the decompiler (ints mod 2^32)
+fn literal_key(a: &str) -> String {
+    let t = a.trim();
+    if t.starts_with('"') { return t.to_string(); }
+    let (neg, body) = match t.strip_prefix('-') { Some(b) => (true, b.trim()), None => (false, t) };
+    if body == "true" { return "i1".into(); }
+    if body == "false" { return "i0".into(); }
+    let as_int = if let Some(h) = body.strip_prefix("0x").or_else(|| body.strip_prefix("0X")) { u64::from_str_radix(h, 16).ok() }
+                 else if let Some(b) = body.strip_prefix("0b") { u64::from_str_radix(b, 2).ok() } else { body.parse::<u64>().ok() };
+    if let Some(v) = as_int { let v = if neg { (v as i64).wrapping_neg() as u32 } else { v as u32 }; return format!("i{v}"); }
+    if let Ok(f) = body.parse::<f32>() { let f = if neg { -f } else { f }; return format!("f{}", crate::util::canon_bits(f)); }
+    format!("?{t}")
+}
+
+/// one call with boundary arguments: compile, decompile raw, compare the printed arguments with the source's
+fn source_readback(format: Format, game: truth::Game, maps: &[String], head: &str, tail: &str, opcode: i64, args: &[String]) -> Sexp {
+    let call = format!("ins_{opcode}({});", args.join(", "));
+    let text = format!("{head}    {call}\n{tail}");
+    let c = tc::compile(format, game, maps, text.as_bytes());
+    let bytes = match c.value {
+        Some(b) => b,
+        None => return if c.has_error_diag() { Sexp::app("rejected", vec![Sexp::str(crate::util::diag_class(&c.diagnostics))]) } else { fail("compile-fails-without-error-diagnostic", format!("{} {}", format.name(), game)) },
+    };
+    // raw decompile: arguments decoded by signature, no intrinsics / blocks / switches
+    let d = tc::decompile(format, game, maps, &bytes, &tc::options_from_bits(2 | 4 | 8 | 16), 10000);
+    let dtext = match d.value.clone() { Some(t) => t, None => return fail(format!("written-file-unreadable {}", format.name()), format!("{}: {}", game, crate::util::diag_class(&d.diagnostics))) };
+    if d.has_warning_diag() { return Sexp::app("skip", vec![Sexp::atom("decompile-warned")]); }
+    let needle = format!("ins_{opcode}(");
+    let line = match dtext.lines().find(|l| l.contains(&needle)) { Some(l) => l, None => return fail(format!("call-missing-after-readback {}", format.name()), format!("{game}: {call} -> {}", dtext.chars().take(300).collect::<String>())) };
+    let inner = &line[line.find(&needle).unwrap() + needle.len()..line.rfind(')').unwrap_or(line.len())];
+    let got = split_args(inner);
+    let want_keys: Vec<String> = args.iter().map(|a| literal_key(a)).collect();
+    let got_keys: Vec<String> = got.iter().map(|a| literal_key(a)).collect();
+    if got_keys.iter().any(|k| k.starts_with('?')) { return Sexp::app("skip", vec![Sexp::atom("non-literal-in-decompiled-call"), Sexp::str(line.trim())]); }
+    if want_keys == got_keys { Sexp::app("pass", vec![]) }
+    else { fail(format!("argument-reads-back-different {}", format.name()), format!("{game}: source `{call}` reads back as `{}`", line.trim())) }
+}
+
 impl Prop for C03 {
     fn id(&self) -> &'static str { "C03" }
     fn relation(&self) -> &'static str {
@@ -160,6 +218,18 @@ impl Prop for C03 {
             let g = gensrc::gen_any(rng);
             out.push(Case::search(Sexp::app("file", vec![Sexp::atom(g.format.name()), Sexp::atom(format!("{}", g.game)), Sexp::list(g.maps.iter().map(|m| Sexp::str(m.clone())).collect()), Sexp::str(g.text)])).tag(format!("file-{}", g.format.name())));
         }
+        // source arguments vs what a reader sees, incl. values at / beyond parameter widths
+        let sweep = if tier == Tier::Quick { gensrc::all_single_calls(rng, (1, 8), 1) } else { gensrc::all_single_calls(rng, (1, 1), 4) };
+        for (g, head, tail, op, args) in sweep {
+            out.push(Case::search(Sexp::app("readback", vec![Sexp::atom(g.format.name()), Sexp::atom(format!("{}", g.game)), Sexp::list(g.maps.iter().map(|m| Sexp::str(m.clone())).collect()),
+                Sexp::str(head), Sexp::str(tail), Sexp::int(op as i64), Sexp::list(args.into_iter().map(Sexp::str).collect())])).tag(format!("readback-sweep-{}", g.format.name())));
+        }
+        for _ in 0..200 * scale {
+            if let Some((g, head, tail, op, args)) = gensrc::gen_single_call(rng) {
+                out.push(Case::search(Sexp::app("readback", vec![Sexp::atom(g.format.name()), Sexp::atom(format!("{}", g.game)), Sexp::list(g.maps.iter().map(|m| Sexp::str(m.clone())).collect()),
+                    Sexp::str(head), Sexp::str(tail), Sexp::int(op as i64), Sexp::list(args.into_iter().map(Sexp::str).collect())])).tag(format!("readback-{}", g.format.name())));
+            }
+        }
         for _ in 0..10 * scale {
             let g = gensrc::gen_anm_v0_multi_entry(rng);
             out.push(Case::search(Sexp::app("file-known", vec![Sexp::atom("anm-v0-multi-entry"), Sexp::atom(g.format.name()), Sexp::atom(format!("{}", g.game)), Sexp::list(vec![]), Sexp::str(g.text)])).tag("known-finding-stream-anm-v0-multi-entry"));
@@ -196,6 +266,12 @@ impl Prop for C03 {
                 if matches!(fmt, "ecl06" | "ecl07" | "tl08") && got.difficulty != want.difficulty { bad.push("difficulty"); }
                 if fmt == "tl06" && got.extra_arg != want.extra_arg { bad.push("extra"); }
                 if bad.is_empty() { Sexp::app("pass", vec![]) } else { fail(format!("written-instr-reads-back-different {fmt} field={}", bad.join("+")), format!("wrote {:?} read {:?}", want, got)) }
+            },
+            Some("readback") => {
+                let a = case.args();
+                let maps: Vec<String> = a[2].as_list().iter().map(|m| m.as_atom().to_string()).collect();
+                let args: Vec<String> = a[6].as_list().iter().map(|m| m.as_atom().to_string()).collect();
+                source_readback(Format::from_name(a[0].as_atom()), tc::game(a[1].as_atom()), &maps, a[3].as_atom(), a[4].as_atom(), a[5].as_i64(), &args)
             },
             Some("file-known") => {
                 // streams that exercise a listed finding: failures are keyed by the stream's tag
